@@ -24,10 +24,14 @@ def main():
     origin = {'replay_unpack': replay_unpack.__file__, 'replay_parser': replay_parser.__file__}
     for item in files:
         # an item is either a path (global mode) or '<mode>=<path>'
-        m, path = (item.split('=', 1) if ('=' in item and item.split('=', 1)[0] in ('strict', 'lenient')) else (mode, item))
+        m, path = (item.split('=', 1) if ('=' in item and item.split('=', 1)[0] in ('strict', 'lenient', 'strict2', 'lenient2')) else (mode, item))
         rec = {'file': path, 'mode': m}
         try:
-            info = replay_parser.ReplayParser(path, strict=(m == 'strict')).get_info()
+            parser = replay_parser.ReplayParser(path, strict=m.startswith('strict'))
+            info = parser.get_info()
+            if m.endswith('2'):
+                # the same parser object asked again: the second answer is the one reported
+                info = parser.get_info()
             txt = json.dumps(info, cls=replay_parser.DefaultEncoder, sort_keys=True, ensure_ascii=False)
             rec['digest'] = hashlib.sha1(txt.encode('utf-8')).hexdigest()
             rec['hidden'] = info.get('hidden') is not None
